@@ -127,7 +127,7 @@ def oracle(ep, outs):
         oi += 1
         if oi == 1:
             continue
-        if o in ("hang", "bad-op"):
+        if o in ("hang", "bad-op") or o.startswith("resp aborted"):   # a panic in the balancer before any backend was contacted
             fails.append("%s -> %s" % (line, o))
             break
         w = line.split()
@@ -197,10 +197,13 @@ def check(ctx):
     episodes = C.load_corpus(ID) + [gen_episode(ctx.rng, ctx.thorough()) for _ in range(nep)] + [churn_episode(ctx.rng)]
     bad = d.check(episodes, oracle=orc, label="health")
     from . import c03
-    dfe = C.Differential(ctx, c03.build(ctx), timeout=600, project=c03.project)
+    dfe = C.Differential(ctx, c03.build(ctx), timeout=600, project=c03.project, confirm=2)
     fe = front_eject_episodes()
     dfe.check(fe, oracle=front_eject_oracle, label="health-front")
     ctx.cov["front_end_ejection_episodes"] = len(fe)
+    # the windows, thresholds and intervals the state machine runs with are the file's (LoadConfig hands them on as written)
+    from .. import cfgfid
+    cfgfid.check(ctx, C.Differential(ctx, c03.build(ctx), timeout=300), n=40 if ctx.thorough() else 10)
     ev = {}
     nontriv = set()
     if bad == 0:
